@@ -49,6 +49,7 @@ class Chart:
     self.ncalls = 0
     self.call_limit = call_limit
     self.calls = []          # every call a handler received: (signal_name, state, returned status)
+    self.enter_return = []   # the same calls as enter / return events (nested calls: a handler that queries the chart while it handles)
     self.hx = hx
     self.none_for = none_for or {}   # state -> set of signal kinds for which it returns None (C24)
     self.names = names or ["s%d" % i for i in range(len(parent))]
@@ -75,8 +76,10 @@ class Chart:
         from vf.core import HarnessAbort
         raise HarnessAbort("call limit")
       s = e.signal
+      ch.enter_return.append(("E", e.signal_name, i, None))
       status = ch._react(i, chart, s)
       ch.calls.append((e.signal_name, i, status))
+      ch.enter_return.append(("R", e.signal_name, i, status))
       return status
     h.__name__ = self.names[i]
     h.__qualname__ = self.names[i]
